@@ -36,6 +36,33 @@ type wlInput struct {
 
 var wlFileSeq int
 
+// closingStream is a private non-seekable source that owns a resource: Close is counted.
+type closingStream struct {
+	data   []byte
+	pos    int
+	closed int
+}
+
+func (s *closingStream) Read(p []byte) (int, error) {
+	sched.Yield(sched.SiteRead)
+	if s.pos >= len(s.data) {
+		return 0, io.EOF
+	}
+	n := copy(p, s.data[s.pos:])
+	s.pos += n
+	return n, nil
+}
+
+func (s *closingStream) Close() error {
+	s.closed++
+	return nil
+}
+
+// closingBytes additionally exposes its content (the Bytes() shortcut of the constructor).
+type closingBytes struct{ *closingStream }
+
+func (s *closingBytes) Bytes() []byte { return s.data }
+
 // prepareFile gives a wlBinary input its private file. Main goroutine only.
 func prepareFile(in *wlInput) {
 	if in.kind != wlBinary || in.path != "" {
@@ -704,6 +731,52 @@ func runWorkloadIn(in wlInput, scratch []byte) (out []byte) {
 			bw.Write(c&1 == 1)
 		}
 		t.add("bitmap", bw.Bytes())
+		// Private sources that own a resource: each task builds readers over its own closers (a
+		// non-seekable stream read to the end, a source exposing Bytes(); with this task's bytes
+		// and with no bytes at all) and closes them in an order of its own. Which closer was
+		// closed how often is part of the result.
+		{
+			enc := w.Bytes()
+			srcs := []*closingStream{{data: enc}, {}, {data: enc[:len(enc)/2]}, {}}
+			var rs []*parse.BinaryReader
+			for i, s := range srcs {
+				call()
+				var br *parse.BinaryReader
+				var err error
+				if i%2 == in.opt%2 {
+					br, err = parse.NewBinaryReaderReader(&closingBytes{s}, -1)
+				} else {
+					br, err = parse.NewBinaryReaderReader(s, -1)
+				}
+				t.add("cnew", err)
+				rs = append(rs, br)
+			}
+			rs = append(rs, parse.NewBinaryReaderBytes(nil), parse.NewBinaryReaderBytes(enc[:0]))
+			for k := range rs {
+				i := (k + in.opt) % len(rs)
+				call()
+				if rs[i] == nil {
+					continue
+				}
+				t.add("cread", rs[i].ReadUint16(), rs[i].Len(), rs[i].Err())
+				t.add("cclose", i, rs[i].Close())
+				for _, s := range srcs {
+					t.add("closed", s.closed)
+				}
+			}
+			// a reader stacked on a section of another seeker-backed reader (BinaryReader is an
+			// io.ReaderAt): an embedded table parsed through its own reader
+			call()
+			if parent, err := parse.NewBinaryReaderReader(bytes.NewReader(enc), -1); err == nil && len(enc) >= 4 {
+				sec := io.NewSectionReader(parent, 1, int64(len(enc)-2))
+				child, err := parse.NewBinaryReaderReader(sec, -1)
+				t.add("stacked", err)
+				if err == nil {
+					call()
+					t.add("stackedread", child.ReadUint16(), child.Pos(), child.Len(), child.Err(), parent.ReadUint8(), parent.Pos())
+				}
+			}
+		}
 		if in.path != "" {
 			// the same bytes through a private file: file-backed and memory-mapped readers
 			// (an empty file included); every instance is opened, used and closed by this task
